@@ -114,8 +114,33 @@ def run(ctx):
             check_case(g, cfg, r[1], spec, kf, reproduced, viol)
         if len(samples) < 2 and len(g) < 12:
             samples.append({"nt": to_nt(g), "threshold": list(cfg['th']), "shexc": r[2]})
+    # ---------------- directed: every boundary k/n of larger classes - a feature of exactly k of n instances at threshold k/n is kept,
+    # and dropped at the next grid point (k+1)/n; (k, n) includes the pairs where k >= (k/n)*n fails in floating point
+    nmax = 30 if ctx.tier == "quick" else 60
+    pairs = [(k, n) for n in range(8, nmax + 1) for k in range(1, n) if (k / n) * n != k or rng.random() < (0.04 if ctx.tier == "quick" else 0.3)]
+    stats["boundary_pairs"] = len(pairs)
+    bcases = []
+    for k, n in pairs:
+        inv = rng.random() < 0.3
+        g = [(I('m%d' % j), RDF_TYPE, I('M')) for j in range(n)]
+        for j in range(k):
+            g.append((I('m%d' % j), EX + 'flag', L('v')) if not inv else (I('x%d' % j), EX + 'flag', I('m%d' % j)))
+        cfg = gen.default_cfg()
+        cfg['inverse'] = inv
+        cfg['keep_less_specific'] = rng.random() < 0.5
+        bcases.append((g, dict(cfg, th=(k, n)), True, (k, n)))
+        bcases.append((g, dict(cfg, th=(k + 1, n)), False, (k, n)))
+    for (g, cfg, keep, (k, n)), r in zip(bcases, pipeline.run_impl([(g, c) for g, c, _, _ in bcases])):
+        if r[0] != 'ok':
+            viol.append({"what": "implementation gave no result", "outcome": list(r[:3]), **pipeline.case_json(g, cfg)})
+            continue
+        has = any(st['prop'] == EX + 'flag' for sh in r[1]['shapes'] for st in sh['stmts'])
+        if has != keep:
+            viol.append({"what": "a feature of %d of %d instances is %s at threshold %d/%d" % (k, n, "kept" if has else "dropped", cfg['th'][0], cfg['th'][1]),
+                         "k": k, "n": n, **pipeline.case_json(g, cfg)})
     return base.std_result(ctx, cases, viol, dis, base.known_lines(kf, reproduced), stats, nontriv, samples,
                            "random graphs x random inference switches x 3 thresholds drawn from the k/n grid of the class sizes present "
                            "(plus 0, 1/2, 51/100, 1/3, 2/3, 1); non-trivial = some key has frequency strictly between 0 and 1 or sits exactly on "
-                           "the threshold", DEPS,
+                           "the threshold; directed: classes of 8..%d instances with a feature on exactly k of them at thresholds k/n (kept) and (k+1)/n (dropped), all "
+                           "pairs where the float product (k/n)*n differs from k included" % (30 if ctx.tier == "quick" else 60), DEPS,
                            ["float division agrees with the exact rational comparison for the class sizes generated"])
